@@ -494,6 +494,19 @@ func frModelsDir(scratch string) string {
 	if sh, _ := strconv.Atoi(os.Getenv("VERIF_SHARD")); sh%2 == 1 || os.Getenv("VERIF_REPLAY") != "" {
 		leaf = `mod[e-l]s *v?\\2 {a,b}`
 	}
+	// a replay file may ask for the plain directory ("models_dir": "plain"): the download code globs for its resume
+	// files with the blob's path as the pattern, so in the metacharacter directory a download never resumes - and a
+	// finding that lives in the resume path does not reproduce there
+	if p := os.Getenv("VERIF_REPLAY"); p != "" {
+		if raw, err := os.ReadFile(p); err == nil {
+			var rp struct {
+				ModelsDir string `json:"models_dir"`
+			}
+			if json.Unmarshal(raw, &rp) == nil && rp.ModelsDir == "plain" {
+				leaf = "models"
+			}
+		}
+	}
 	d := filepath.Join(scratch, leaf)
 	os.MkdirAll(d, 0o755)
 	return d
